@@ -12,7 +12,7 @@ Refine, History, Lru.  All statements are for every history (no length bound) an
 C++ type; the clock is assumed to be a non-negative `time_t` (see `negative_clock_never_expires` for what happens otherwise).
 -/
 import SquidModel.ClpMap.History
-import SquidModel.ClpMap.Lru
+import SquidModel.ClpMap.LruMin
 
 namespace SquidModel.C51
 open SquidModel.ClpMap SquidModel.Gen.ClpMapConsts
@@ -123,6 +123,15 @@ theorem setLimit_purges_least_recent (capacity : Nat) (ttl0 : Option Int) (now0 
   subst hw
   exact Stamped.sfit_maximal _ _ w t' ht
 
+/-- The reference purge *is* the textbook LRU loop: in every reachable state, "while the entries do not fit, drop the
+one with the smallest last-use stamp" (the minimum found by stamp, not by position) gives exactly the entries the
+reference keeps (`sfit`), for any amount of room. -/
+theorem purge_is_lru_loop (capacity : Nat) (ttl0 : Option Int) (now0 : Int) (ops : List Op) (room : Nat) :
+    let s := (Stamped.after (Stamped.init capacity ttl0) now0 ops).1
+    Stamped.evictLoop s.items.length s.items room = Stamped.sfit s.items room := by
+  intro s
+  exact Stamped.evictLoop_eq_sfit _ _ _ (Stamped.sinv_after ops now0 (Stamped.sinv_init capacity ttl0)).sorted (Nat.le_refl _)
+
 /-- Reference-level meaning of a hit: an accepted `add` is returned by `get` under the same key until its TTL has passed … -/
 theorem get_after_add (r : Ref) (now now' : Int) (k klen : Nat) (v : Int) (vsz : Nat) (ttl : Int)
     (hacc : (r.add now k klen v vsz ttl).2 = true) (hfresh : now' ≤ expiryOf now ttl) :
@@ -168,6 +177,11 @@ key length + sizeof(Entry) + value size + sizeof(index item) when that fits 64 b
 theorem memory_counted_exact (klen vsz : Nat) (hk : klen ≤ u64Max) (hv : vsz ≤ u64Max) :
     memoryCountedFor klen vsz = if exactSize klen vsz ≤ u64Max then some (exactSize klen vsz) else none :=
   memoryCountedFor_eq hk hv
+
+/-- The constants the translator observed behaviourally agree with the ones it read off the types: one entry with an
+empty key and a zero-sized value is accounted as `sizeof(Entry) + sizeof(IndexItem)`, and a map built without a default
+TTL uses the largest `Ttl`. -/
+theorem accounting_constants_consistent : overheadObserved = entrySize + indexSize ∧ defaultTtl = ttlMax := by decide
 
 /-- The saturation of the expiry instant at `time_t` max is invisible: for every clock value a `time_t` can hold, the
 entry is stale exactly when the exact (unbounded) instant `now + ttl` has passed. -/
